@@ -168,4 +168,165 @@ theorem adjustIds_total (m : Nat) (ids : List Nat) (h : ∀ id ∈ ids, m ≤ id
     simp [adjustIds, adjustId, csub, hi, ih (fun id hid => h id (by simp [hid]))]
 
 
+
+/-! ### the endpoint ids handed back by the builders -/
+
+/-- the endpoint ids a program is handed back: the index of each endpoint's position slot.
+`pos` = current length of the point array, `es` = slots per endpoint -/
+def emitEndpointIds (es : Nat) : Nat → Prog S → List Nat
+  | _, [] => []
+  | pos, .begin _ _ :: r => pos :: emitEndpointIds es (pos + es) r
+  | pos, .line _ _ :: r => pos :: emitEndpointIds es (pos + es) r
+  | pos, .quad _ _ _ :: r => (pos + 1) :: emitEndpointIds es (pos + 1 + es) r
+  | pos, .cubic _ _ _ _ :: r => (pos + 2) :: emitEndpointIds es (pos + 2 + es) r
+  | pos, .end_ true :: r => emitEndpointIds es (pos + es) r
+  | pos, .end_ false :: r => emitEndpointIds es pos r
+
+/-- the endpoints (position, attributes) a program hands to the builder, in call order -/
+def progEndpoints : Prog S → List (APt S)
+  | [] => []
+  | .begin p a :: r => (p, a) :: progEndpoints r
+  | .line p a :: r => (p, a) :: progEndpoints r
+  | .quad _ p a :: r => (p, a) :: progEndpoints r
+  | .cubic _ _ p a :: r => (p, a) :: progEndpoints r
+  | .end_ _ :: r => progEndpoints r
+
+theorem run_cons_snd (b : BuilderWithAttributes S) (c : Call (Pt S) (List S)) (r : Prog S) :
+    (b.run (c :: r)).map (·.2) = (b.call c).bind fun s =>
+      (BuilderWithAttributes.run s.1 r).map fun t => consId s.2 t.2 := by
+  simp only [BuilderWithAttributes.run]
+  cases b.call c with
+  | none => rfl
+  | some s => simp only [Option.bind_some, Option.map_map]; rfl
+
+/-- the ids `BuilderWithAttributes` returns -/
+theorem run_ids (b : BuilderWithAttributes S) (prog : Prog S)
+    (ha : attrsOk b.numAttributes prog = true) (hfa : b.firstAttributes.length = b.numAttributes) :
+    (b.run prog).map (·.2)
+      = some (emitEndpointIds (attribStride b.numAttributes + 1) b.builder.points.length prog) := by
+  induction prog generalizing b with
+  | nil => simp [BuilderWithAttributes.run, emitEndpointIds]
+  | cons c r ih =>
+    obtain ⟨⟨pts, vs, f⟩, n, fa⟩ := b
+    simp only at hfa ha
+    rw [run_cons_snd]
+    cases c with
+    | begin p a =>
+      simp only [attrsOk, Bool.and_eq_true, beq_iff_eq] at ha
+      have h := ih ⟨⟨pts ++ [p] ++ packAttrs a, vs ++ [Verb.begin], p⟩, n, a⟩ ha.2 ha.1
+      simp [packAttrs_length, ha.1] at h
+      simp [BuilderWithAttributes.call, BuilderWithAttributes.begin, BuilderImpl.begin, pushAttributesImpl,
+        ha.1, emitEndpointIds, consId, h, Nat.add_assoc, Nat.add_comm 1]
+    | line p a =>
+      simp only [attrsOk, Bool.and_eq_true, beq_iff_eq] at ha
+      have h := ih ⟨⟨pts ++ [p] ++ packAttrs a, vs ++ [Verb.lineTo], f⟩, n, fa⟩ ha.2 hfa
+      simp [packAttrs_length, ha.1] at h
+      simp [BuilderWithAttributes.call, BuilderWithAttributes.lineTo, BuilderWithAttributes.withPoints,
+        BuilderImpl.lineTo, pushAttributesImpl, ha.1, emitEndpointIds, consId, h, Nat.add_assoc, Nat.add_comm 1]
+    | quad k p a =>
+      simp only [attrsOk, Bool.and_eq_true, beq_iff_eq] at ha
+      have h := ih ⟨⟨pts ++ [k] ++ [p] ++ packAttrs a, vs ++ [Verb.quadraticTo], f⟩, n, fa⟩ ha.2 hfa
+      simp [packAttrs_length, ha.1] at h
+      simp [BuilderWithAttributes.call, BuilderWithAttributes.quadraticBezierTo, BuilderWithAttributes.withPoints,
+        BuilderImpl.quadraticBezierTo, pushAttributesImpl, ha.1, emitEndpointIds, consId, h, Nat.add_assoc,
+        Nat.add_comm 1]
+    | cubic k1 k2 p a =>
+      simp only [attrsOk, Bool.and_eq_true, beq_iff_eq] at ha
+      have h := ih ⟨⟨pts ++ [k1] ++ [k2] ++ [p] ++ packAttrs a, vs ++ [Verb.cubicTo], f⟩, n, fa⟩ ha.2 hfa
+      simp [packAttrs_length, ha.1] at h
+      have e : pts.length + (attribStride n + 1 + 1 + 1) = pts.length + (2 + (attribStride n + 1)) := by omega
+      rw [e] at h
+      simp [BuilderWithAttributes.call, BuilderWithAttributes.cubicBezierTo, BuilderWithAttributes.withPoints,
+        BuilderImpl.cubicBezierTo, pushAttributesImpl, ha.1, emitEndpointIds, consId, h, Nat.add_assoc,
+        Nat.add_comm 1]
+    | end_ cl =>
+      simp only [attrsOk] at ha
+      cases cl with
+      | true =>
+        have h := ih ⟨⟨pts ++ [f] ++ packAttrs fa, vs ++ [Verb.close], f⟩, n, fa⟩ ha hfa
+        simp [packAttrs_length, hfa] at h
+        simp [BuilderWithAttributes.call, BuilderWithAttributes.end_, BuilderWithAttributes.withPoints,
+          BuilderImpl.end_, pushAttributesImpl, hfa, emitEndpointIds, consId, h, Nat.add_assoc, Nat.add_comm 1]
+      | false =>
+        have h := ih ⟨⟨pts, vs ++ [Verb.end_], f⟩, n, fa⟩ ha hfa
+        simp at h
+        simp [BuilderWithAttributes.call, BuilderWithAttributes.end_, BuilderWithAttributes.withPoints,
+          BuilderImpl.end_, emitEndpointIds, consId, h]
+
+/-- every returned id resolves, in bounds, to the endpoint it was returned for — position through
+`path[id]`, attributes through `path.attributes(id)` -/
+theorem ids_resolve_emit (P : PathData S) (prog : Prog S) (f : Pt S) (fa : List S) (pre : List (Pt S))
+    (hall : P.points = pre ++ emitPts f fa prog) (ha : attrsOk P.numAttributes prog = true)
+    (hfa : fa.length = P.numAttributes) :
+    (emitEndpointIds (attribStride P.numAttributes + 1) pre.length prog).mapM P.endpointA
+      = some (progEndpoints prog) := by
+  induction prog generalizing f fa pre with
+  | nil => simp [emitEndpointIds, progEndpoints]
+  | cons c r ih =>
+    cases c with
+    | begin p a =>
+      simp only [attrsOk, Bool.and_eq_true, beq_iff_eq] at ha
+      simp only [emitPts] at hall
+      have hA := endpointA_at P pre _ p a hall ha.1
+      have h := ih p a (pre ++ endpointPts p a) (by simpa using hall) ha.2 ha.1
+      simp [endpointPts_length, ha.1] at h
+      simp [emitEndpointIds, progEndpoints, hA, h]
+    | line p a =>
+      simp only [attrsOk, Bool.and_eq_true, beq_iff_eq] at ha
+      simp only [emitPts] at hall
+      have hA := endpointA_at P pre _ p a hall ha.1
+      have h := ih f fa (pre ++ endpointPts p a) (by simpa using hall) ha.2 hfa
+      simp [endpointPts_length, ha.1] at h
+      simp [emitEndpointIds, progEndpoints, hA, h]
+    | quad k p a =>
+      simp only [attrsOk, Bool.and_eq_true, beq_iff_eq] at ha
+      simp only [emitPts] at hall
+      have hA := endpointA_at P (pre ++ [k]) _ p a (by simpa using hall) ha.1
+      have h := ih f fa (pre ++ [k] ++ endpointPts p a) (by simpa using hall) ha.2 hfa
+      simp [endpointPts_length, ha.1] at h hA
+      have e : pre.length + (attribStride P.numAttributes + 1 + 1) = pre.length + (1 + (attribStride P.numAttributes + 1)) := by omega
+      rw [e] at h
+      simp [emitEndpointIds, progEndpoints, hA, h, Nat.add_assoc]
+    | cubic k1 k2 p a =>
+      simp only [attrsOk, Bool.and_eq_true, beq_iff_eq] at ha
+      simp only [emitPts] at hall
+      have hA := endpointA_at P (pre ++ [k1] ++ [k2]) _ p a (by simpa using hall) ha.1
+      have h := ih f fa (pre ++ [k1] ++ [k2] ++ endpointPts p a) (by simpa using hall) ha.2 hfa
+      simp [endpointPts_length, ha.1] at h hA
+      have e : pre.length + (attribStride P.numAttributes + 1 + 1 + 1) = pre.length + (2 + (attribStride P.numAttributes + 1)) := by omega
+      rw [e] at h
+      simp [emitEndpointIds, progEndpoints, hA, h, Nat.add_assoc]
+    | end_ cl =>
+      simp only [attrsOk] at ha
+      cases cl with
+      | true =>
+        simp only [emitPts] at hall
+        have h := ih f fa (pre ++ endpointPts f fa) (by simpa using hall) ha hfa
+        simp [endpointPts_length, hfa] at h
+        simp [emitEndpointIds, progEndpoints, h]
+      | false =>
+        simp only [emitPts] at hall
+        simpa [emitEndpointIds, progEndpoints] using ih f fa pre hall ha hfa
+
+
+theorem plain_run_ids {A : Type} (b : BuilderImpl S) (prog : List (Call (Pt S) A)) :
+    (b.run prog).2 = emitEndpointIds 1 b.points.length (prog.map noAttr) := by
+  induction prog generalizing b with
+  | nil => simp [BuilderImpl.run, emitEndpointIds]
+  | cons c r ih =>
+    obtain ⟨pts, vs, f⟩ := b
+    cases c with
+    | begin p a =>
+      simp [BuilderImpl.run, BuilderImpl.call, BuilderImpl.begin, ih, noAttr, emitEndpointIds, consId]
+    | line p a =>
+      simp [BuilderImpl.run, BuilderImpl.call, BuilderImpl.lineTo, ih, noAttr, emitEndpointIds, consId]
+    | quad k p a =>
+      simp [BuilderImpl.run, BuilderImpl.call, BuilderImpl.quadraticBezierTo, ih, noAttr, emitEndpointIds,
+        consId, Nat.add_assoc]
+    | cubic k1 k2 p a =>
+      simp [BuilderImpl.run, BuilderImpl.call, BuilderImpl.cubicBezierTo, ih, noAttr, emitEndpointIds,
+        consId, Nat.add_assoc]
+    | end_ cl =>
+      cases cl <;> simp [BuilderImpl.run, BuilderImpl.call, BuilderImpl.end_, ih, noAttr, emitEndpointIds, consId]
+
 end Lyon.Path
